@@ -274,7 +274,11 @@ func (p *Parser) loadPackagesWithConfig(baseCfg *packages.Config, patterns ...st
 		p.goPkgs[pkg.PkgPath] = pkg
 
 		for _, f := range pkg.Syntax {
+			trailing := trailingComments(p.fset, f)
 			for _, c := range f.Comments {
+				if trailing[c] {
+					continue
+				}
 				// We need to do this on _every_ pkg, not just user-requested
 				// ones, because some generators look at tags in other
 				// packages.
@@ -298,6 +302,35 @@ func (p *Parser) loadPackagesWithConfig(baseCfg *packages.Config, patterns ...st
 	}
 
 	return append(existingPkgs, pkgs...), nil
+}
+
+// trailingComments returns the comment groups of f which start on a line on
+// which code ends before them (e.g. "X int // comment"). Such a comment belongs
+// to that code: it is not a doc comment or a detached comment of whatever
+// follows it.
+func trailingComments(fset *token.FileSet, f *ast.File) map[*ast.CommentGroup]bool {
+	firstEnd := map[int]token.Pos{} // line -> earliest end of a node ending on it
+	ast.Inspect(f, func(n ast.Node) bool {
+		switch n.(type) {
+		case nil:
+			return false
+		case *ast.File, *ast.Comment, *ast.CommentGroup:
+			return true
+		}
+		end := n.End()
+		line := fset.Position(end).Line
+		if cur, ok := firstEnd[line]; !ok || end < cur {
+			firstEnd[line] = end
+		}
+		return true
+	})
+	out := map[*ast.CommentGroup]bool{}
+	for _, c := range f.Comments {
+		if end, ok := firstEnd[fset.Position(c.Pos()).Line]; ok && end <= c.Pos() {
+			out[c] = true
+		}
+	}
+	return out
 }
 
 // alreadyLoaded figures out which of the specified patterns have already been loaded
